@@ -95,6 +95,15 @@ def main():
 
     if ctx.replay:
         rp = json.load(open(ctx.replay if os.path.isabs(ctx.replay) else os.path.join(VERIF, ctx.replay)))
+        if "schedtab_row" in rp:
+            tb = build_harness(ctx, ["schedtab"])
+            outp = os.path.join(ctx.run, "schedtab.jsonl")
+            rc, o = sh([tb["schedtab"], "-out", outp], cwd=ctx.run, timeout=120)
+            rows = [json.loads(l) for l in open(outp)] if rc == 0 else []
+            same = [r for r in rows if r["deps"] == rp["schedtab_row"]["deps"]]
+            if same and (same[0]["ready"], same[0]["canceled"]) == (rp["schedtab_row"]["ready"], rp["schedtab_row"]["canceled"]):
+                violation(ctx, rp)
+            finish(ctx)
         if "persist_scenario" in rp:
             pb = build_harness(ctx, ["persistrun"])
             outp = os.path.join(ctx.run, "persist.jsonl")
@@ -188,6 +197,39 @@ def main():
         ctx.coverage["codec_round_trips"] = len(res)
         for r in [r for r in res if not r["ok"]][:2]:
             violation(ctx, {"what": r.get("what"), "mode": "seq", "seed": ctx.seed, "n": n, "case": r})
+    if prop in ("C02", "C08"):
+        # the dependency check of the scheduling loop as a complete decision table (0-3 dependencies, every status x allow_failure, in order)
+        tb = build_harness(ctx, ["schedtab"])
+        outp = os.path.join(ctx.run, "schedtab.jsonl")
+        rows = []
+        if tb:
+            rc, o = sh([tb["schedtab"], "-out", outp], cwd=ctx.run, timeout=120)
+            if rc == 0:
+                rows = [json.loads(l) for l in open(outp)]
+        if not rows:
+            violation(ctx, {"what": "schedtab did not complete", "broken": "correspondence schedtab vs System.check_status"}, found_input=False)
+        ST = ["Waiting", "Running", "Skipped", "Done", "Error", "Canceled"]
+        terms = ["(%d%%nat, %s, %s, %s)" % (i, cq_list(r["deps"], lambda d: "(%s, %s)" % (ST[d["status"]], cq_bool(d["allow"]))), cq_bool(r["ready"]), cq_bool(r["canceled"]))
+                 for i, r in enumerate(rows)]
+        tbad = run_cases(ctx, "schedtab", "From stdpp Require Import list.\nFrom PV Require Import System Corr.SysCorr.\n", terms,
+                         case_type="(nat * list (status * bool) * bool * bool)", mism="check_status_mismatches") if terms else []
+        ctx.coverage["check_status_table_rows"] = len(rows)
+        ctx.coverage["check_status_table_mismatches"] = len(tbad)
+        # the property on the table: ready only if every dependency is done, skipped, or failed with allow_failure;
+        # canceled iff some dependency was canceled or failed without allow_failure
+        def want(r):
+            ok = all(ST[d["status"]] in ("Done", "Skipped") or (ST[d["status"]] == "Error" and d["allow"]) for d in r["deps"])
+            canc = any(ST[d["status"]] == "Canceled" or (ST[d["status"]] == "Error" and not d["allow"]) for d in r["deps"])
+            return ok, canc
+        wrong = [r for r in rows if (r["ready"], r["canceled"]) != want(r)]
+        for r in wrong[:2]:
+            deps = [(ST[d["status"]], "allow_failure" if d["allow"] else "") for d in r["deps"]]
+            violation(ctx, {"what": "dependency check of the scheduling loop: a stage with dependencies %s (in depends_on order) is %s and %s" %
+                                    (deps, "launched" if r["ready"] else "not launched", "canceled" if r["canceled"] else "not canceled"),
+                            "schedtab_row": r})
+        if tbad and not wrong:
+            violation(ctx, {"what": "checkStatus differs from System.check_status", "broken": "correspondence schedtab vs coq/System.v check_status",
+                            "rows": [rows[i] for i in tbad[:3]]}, found_input=False)
     if prop == "C11":
         # the real persist loop in real time (3 s interval): every acknowledged change reaches the store without an explicit save
         pb = build_harness(ctx, ["persistrun"])
